@@ -300,11 +300,11 @@ theorem parseNameOnDb_print (s : PState) (name db k : Str) (hex1 : Expressible n
   have e : nameOnDbText name db ++ k = ' ' :: (qi name ++ ' ' :: (Token.ON.str ++ ' ' :: (qi db ++ k))) := by
     simp only [nameOnDbText, List.append_assoc, List.cons_append]
   rw [e] at hs
-  obtain ⟨s1, h1, b1⟩ := parseIdent_piece s [' '] (qi name) _ name Gap.blank hs
+  obtain ⟨s1, h1, b1⟩ := parseIdent_piece s [' '] (qi name) _ name Gap.blank hs.around
     (scansAs_ident name _ hex1 (.of_wordEnd (WordEnd.blank _)))
-  obtain ⟨s2, h2, b2⟩ := expectTok_piece s1 [' '] Token.ON.str _ .ON [] ["ON"] Gap.blank b1
+  obtain ⟨s2, h2, b2⟩ := expectTok_piece s1 [' '] Token.ON.str _ .ON [] ["ON"] Gap.blank b1.around
     (scansAs_kw .ON _ (by decide +kernel) (WordEnd.blank _))
-  obtain ⟨s3, h3, b3⟩ := parseIdent_piece s2 [' '] (qi db) k db Gap.blank b2 (scansAs_ident db k hex2 hk)
+  obtain ⟨s3, h3, b3⟩ := parseIdent_piece s2 [' '] (qi db) k db Gap.blank b2.around (scansAs_ident db k hex2 hk)
   refine ⟨s3, ?_, b3⟩
   unfold parseNameOnDb
   rw [P.run_bind _ _ s name s1 h1, P.run_bind _ _ s1 () s2 h2, P.run_bind _ _ s2 db s3 h3]
@@ -366,9 +366,9 @@ theorem parseOnDb_print (s : PState) (db k : Str) (hex : Expressible db) (hk : I
     rfl
   · rw [if_pos hdb] at hs
     simp only [List.append_assoc, List.cons_append] at hs
-    obtain ⟨s1, h1, b1⟩ := optTok_piece s [' '] Token.ON.str _ .ON [] Gap.blank hs
+    obtain ⟨s1, h1, b1⟩ := optTok_piece s [' '] Token.ON.str _ .ON [] Gap.blank hs.around
       (scansAs_kw .ON _ (by decide +kernel) (WordEnd.blank _))
-    obtain ⟨s2, h2, b2⟩ := parseIdent_piece s1 [' '] (qi db) k db Gap.blank b1 (scansAs_ident db k hex hk)
+    obtain ⟨s2, h2, b2⟩ := parseIdent_piece s1 [' '] (qi db) k db Gap.blank b1.around (scansAs_ident db k hex hk)
     refine ⟨s2, b2, ?_⟩
     unfold Returns
     rw [if_neg (by simpa using hdb)]
@@ -423,7 +423,7 @@ theorem killQuery_print_parse (fuel : Nat) (s : PState) (qid : Nat) (host k : St
   have e : killQueryText qid host ++ k = ' ' :: (natDigits qid ++ (onText host ++ k)) := by
     simp only [killQueryText, List.append_assoc, List.cons_append]
   rw [e] at hs
-  obtain ⟨s1, h1, b1⟩ := parseUInt64_piece s [' '] (natDigits qid) _ qid hq Gap.blank hs
+  obtain ⟨s1, h1, b1⟩ := parseUInt64_piece s [' '] (natDigits qid) _ qid hq Gap.blank hs.around
     (scansAs_nat qid _ (numEnd_onText host k hkn))
   obtain ⟨sK, hb, hr⟩ := parseOnDb_print s1 host k hex hk b1
   refine ⟨sK, hb, ?_⟩
@@ -450,7 +450,7 @@ theorem dropShard_print (id : Nat) : (Statement.dropShard id).print = tx "DROP S
 theorem dropShard_print_parse (fuel : Nat) (s : PState) (id : Nat) (k : Str) (hid : (id : Int) ≤ maxUInt64)
     (hk : NumEnd k) (hs : s.Before (' ' :: natDigits id ++ k)) :
     ∃ s', (runHandler fuel .parseDropShardStatement).run s = .ok (.dropShard id, s') ∧ s'.Before k := by
-  obtain ⟨s1, h1, b1⟩ := parseUInt64_piece s [' '] (natDigits id) k id hid Gap.blank hs (scansAs_nat id k hk)
+  obtain ⟨s1, h1, b1⟩ := parseUInt64_piece s [' '] (natDigits id) k id hid Gap.blank hs.around (scansAs_nat id k hk)
   refine ⟨s1, ?_, b1⟩
   simp only [runHandler]
   rw [P.run_bind _ _ s id s1 h1]; rfl
@@ -480,15 +480,15 @@ theorem dropSubscription_print_parse (fuel : Nat) (s : PState) (name db rp k : S
       ' ' :: (qi name ++ ' ' :: (Token.ON.str ++ ' ' :: (qi db ++ '.' :: (qi rp ++ k)))) := by
     simp only [dropSubscriptionText, List.append_assoc, List.cons_append]
   rw [e] at hs
-  obtain ⟨s1, h1, b1⟩ := parseIdent_piece s [' '] (qi name) _ name Gap.blank hs
+  obtain ⟨s1, h1, b1⟩ := parseIdent_piece s [' '] (qi name) _ name Gap.blank hs.around
     (scansAs_ident name _ hex1 (.of_wordEnd (WordEnd.blank _)))
-  obtain ⟨s2, h2, b2⟩ := expectTok_piece s1 [' '] Token.ON.str _ .ON [] ["ON"] Gap.blank b1
+  obtain ⟨s2, h2, b2⟩ := expectTok_piece s1 [' '] Token.ON.str _ .ON [] ["ON"] Gap.blank b1.around
     (scansAs_kw .ON _ (by decide +kernel) (WordEnd.blank _))
-  obtain ⟨s3, h3, b3⟩ := parseIdent_piece s2 [' '] (qi db) _ db Gap.blank b2
+  obtain ⟨s3, h3, b3⟩ := parseIdent_piece s2 [' '] (qi db) _ db Gap.blank b2.around
     (scansAs_ident db _ hex2 (.of_wordEnd (WordEnd.dot _)))
   obtain ⟨dot, s4, h4, t4, _, b4⟩ := pscan_piece s3 ['.'] (qi rp ++ k) .DOT [] b3
     (scansAs_dot _ (quoteIdent_head_not_digit rp k))
-  obtain ⟨s5, h5, b5⟩ := parseIdent_piece s4 [] (qi rp) k rp Gap.none b4 (scansAs_ident rp k hex3 hk)
+  obtain ⟨s5, h5, b5⟩ := parseIdent_piece s4 [] (qi rp) k rp Gap.none b4.around (scansAs_ident rp k hex3 hk)
   refine ⟨s5, ?_, b5⟩
   simp only [runHandler, parseDropSubscription]
   rw [P.run_bind _ _ s name s1 h1, P.run_bind _ _ s1 () s2 h2, P.run_bind _ _ s2 db s3 h3,
@@ -535,14 +535,14 @@ theorem createUser_print_parse (fuel : Nat) (s : PState) (name pw : Str) (admin 
       ' ' :: (Token.PASSWORD.str ++ ' ' :: (quoteString pw ++ (adminText admin ++ k))))) := by
     simp only [createUserText, List.append_assoc, List.cons_append]
   rw [e] at hs
-  obtain ⟨s1, h1, b1⟩ := parseIdent_piece s [' '] (qi name) _ name Gap.blank hs
+  obtain ⟨s1, h1, b1⟩ := parseIdent_piece s [' '] (qi name) _ name Gap.blank hs.around
     (scansAs_ident name _ hex1 (.of_wordEnd (WordEnd.blank _)))
-  obtain ⟨s2, h2, b2⟩ := parseTokens_cons_piece s1 [' '] Token.WITH.str _ .WITH [.PASSWORD] [] Gap.blank b1
+  obtain ⟨s2, h2, b2⟩ := parseTokens_cons_piece s1 [' '] Token.WITH.str _ .WITH [.PASSWORD] [] Gap.blank b1.around
     (scansAs_kw .WITH _ (by decide +kernel) (WordEnd.blank _))
-  obtain ⟨s3, h3, b3⟩ := parseTokens_cons_piece s2 [' '] Token.PASSWORD.str _ .PASSWORD [] [] Gap.blank b2
+  obtain ⟨s3, h3, b3⟩ := parseTokens_cons_piece s2 [' '] Token.PASSWORD.str _ .PASSWORD [] [] Gap.blank b2.around
     (scansAs_kw .PASSWORD _ (by decide +kernel) (WordEnd.blank _))
   have h23 : (parseTokens [.WITH, .PASSWORD]).run s1 = .ok ((), s3) := by rw [h2, h3]; rfl
-  obtain ⟨s4, h4, b4⟩ := parseString_piece s3 [' '] (quoteString pw) _ pw Gap.blank b3 (scansAs_string pw _ hex2)
+  obtain ⟨s4, h4, b4⟩ := parseString_piece s3 [' '] (quoteString pw) _ pw Gap.blank b3.around (scansAs_string pw _ hex2)
   simp only [runHandler, parseCreateUser]
   cases admin with
   | false =>
@@ -555,11 +555,11 @@ theorem createUser_print_parse (fuel : Nat) (s : PState) (name pw : Str) (admin 
     rfl
   | true =>
     simp only [adminText, if_true, List.append_assoc, List.cons_append] at b4
-    obtain ⟨s5, h5, b5⟩ := optTok_piece s4 [' '] Token.WITH.str _ .WITH [] Gap.blank b4
+    obtain ⟨s5, h5, b5⟩ := optTok_piece s4 [' '] Token.WITH.str _ .WITH [] Gap.blank b4.around
       (scansAs_kw .WITH _ (by decide +kernel) (WordEnd.blank _))
-    obtain ⟨s6, h6, b6⟩ := parseTokens_cons_piece s5 [' '] Token.ALL.str _ .ALL [.PRIVILEGES] [] Gap.blank b5
+    obtain ⟨s6, h6, b6⟩ := parseTokens_cons_piece s5 [' '] Token.ALL.str _ .ALL [.PRIVILEGES] [] Gap.blank b5.around
       (scansAs_kw .ALL _ (by decide +kernel) (WordEnd.blank _))
-    obtain ⟨s7, h7, b7⟩ := parseTokens_cons_piece s6 [' '] Token.PRIVILEGES.str k .PRIVILEGES [] [] Gap.blank b6
+    obtain ⟨s7, h7, b7⟩ := parseTokens_cons_piece s6 [' '] Token.PRIVILEGES.str k .PRIVILEGES [] [] Gap.blank b6.around
       (scansAs_kw .PRIVILEGES _ (by decide +kernel) (hk rfl))
     have h67 : (parseTokens [.ALL, .PRIVILEGES]).run s5 = .ok ((), s7) := by rw [h6, h7]; rfl
     refine ⟨s7, b7, Returns.exact ?_⟩
@@ -589,11 +589,11 @@ theorem setPassword_print_parse (fuel : Nat) (s : PState) (name pw k : Str)
   have e : setPasswordText name (quoteString pw) ++ k = ' ' :: (qi name ++ ' ' :: ('=' :: ' ' :: (quoteString pw ++ k))) := by
     simp only [setPasswordText, List.append_assoc, List.cons_append]
   rw [e] at hs
-  obtain ⟨s1, h1, b1⟩ := parseIdent_piece s [' '] (qi name) _ name Gap.blank hs
+  obtain ⟨s1, h1, b1⟩ := parseIdent_piece s [' '] (qi name) _ name Gap.blank hs.around
     (scansAs_ident name _ hex1 (.of_wordEnd (WordEnd.blank _)))
-  obtain ⟨s2, h2, b2⟩ := expectTok_piece s1 [' '] ['='] _ .EQ [] ["="] Gap.blank b1
+  obtain ⟨s2, h2, b2⟩ := expectTok_piece s1 [' '] ['='] _ .EQ [] ["="] Gap.blank b1.around
     (scansAs_eq _ (by intro t h; cases h))
-  obtain ⟨s3, h3, b3⟩ := parseString_piece s2 [' '] (quoteString pw) k pw Gap.blank b2 (scansAs_string pw k hex2)
+  obtain ⟨s3, h3, b3⟩ := parseString_piece s2 [' '] (quoteString pw) k pw Gap.blank b2.around (scansAs_string pw k hex2)
   refine ⟨s3, ?_, b3⟩
   simp only [runHandler, parseSetPasswordUser]
   rw [P.run_bind _ _ s name s1 h1, P.run_bind _ _ s1 () s2 h2, P.run_bind _ _ s2 pw s3 h3]
@@ -622,7 +622,7 @@ theorem parsePrivilege_print (s : PState) (p : Privilege) (k : Str) (hp : p ≠ 
   cases p with
   | none => exact absurd rfl hp
   | read =>
-    obtain ⟨lx, s1, h1, t1, _, b1⟩ := scanIW_piece s [' '] Token.READ.str k .READ [] Gap.blank hs
+    obtain ⟨lx, s1, h1, t1, _, b1⟩ := scanIW_piece s [' '] Token.READ.str k .READ [] Gap.blank hs.around
       (scansAs_kw .READ k (by decide +kernel) hk)
     refine ⟨s1, ?_, b1⟩
     unfold parsePrivilege
@@ -630,7 +630,7 @@ theorem parsePrivilege_print (s : PState) (p : Privilege) (k : Str) (hp : p ≠ 
     simp only [t1]
     rfl
   | write =>
-    obtain ⟨lx, s1, h1, t1, _, b1⟩ := scanIW_piece s [' '] Token.WRITE.str k .WRITE [] Gap.blank hs
+    obtain ⟨lx, s1, h1, t1, _, b1⟩ := scanIW_piece s [' '] Token.WRITE.str k .WRITE [] Gap.blank hs.around
       (scansAs_kw .WRITE k (by decide +kernel) hk)
     refine ⟨s1, ?_, b1⟩
     unfold parsePrivilege
@@ -642,9 +642,9 @@ theorem parsePrivilege_print (s : PState) (p : Privilege) (k : Str) (hp : p ≠ 
       show ' ' :: ((Token.ALL.str ++ ' ' :: Token.PRIVILEGES.str) ++ k) = _
       simp only [List.append_assoc, List.cons_append]
     rw [e] at hs
-    obtain ⟨lx, s1, h1, t1, _, b1⟩ := scanIW_piece s [' '] Token.ALL.str _ .ALL [] Gap.blank hs
+    obtain ⟨lx, s1, h1, t1, _, b1⟩ := scanIW_piece s [' '] Token.ALL.str _ .ALL [] Gap.blank hs.around
       (scansAs_kw .ALL _ (by decide +kernel) (WordEnd.blank _))
-    obtain ⟨lx2, s2, h2, t2, _, b2⟩ := scanIW_piece s1 [' '] Token.PRIVILEGES.str k .PRIVILEGES [] Gap.blank b1
+    obtain ⟨lx2, s2, h2, t2, _, b2⟩ := scanIW_piece s1 [' '] Token.PRIVILEGES.str k .PRIVILEGES [] Gap.blank b1.around
       (scansAs_kw .PRIVILEGES k (by decide +kernel) hk)
     refine ⟨s2, ?_, b2⟩
     unfold parsePrivilege
@@ -686,13 +686,13 @@ theorem grant_print_parse (fuel : Nat) (s : PState) (p : Privilege) (on user k :
     simp only [grantText, List.append_assoc, List.cons_append]
   rw [e] at hs
   obtain ⟨s1, h1, b1⟩ := parsePrivilege_print s p _ hp (WordEnd.blank _) hs
-  obtain ⟨lx, s2, h2, t2, _, b2⟩ := scanIW_piece s1 [' '] Token.ON.str _ .ON [] Gap.blank b1
+  obtain ⟨lx, s2, h2, t2, _, b2⟩ := scanIW_piece s1 [' '] Token.ON.str _ .ON [] Gap.blank b1.around
     (scansAs_kw .ON _ (by decide +kernel) (WordEnd.blank _))
-  obtain ⟨s3, h3, b3⟩ := parseIdent_piece s2 [' '] (qi on) _ on Gap.blank b2
+  obtain ⟨s3, h3, b3⟩ := parseIdent_piece s2 [' '] (qi on) _ on Gap.blank b2.around
     (scansAs_ident on _ hex1 (.of_wordEnd (WordEnd.blank _)))
-  obtain ⟨s4, h4, b4⟩ := expectTok_piece s3 [' '] Token.TO.str _ .TO [] ["TO"] Gap.blank b3
+  obtain ⟨s4, h4, b4⟩ := expectTok_piece s3 [' '] Token.TO.str _ .TO [] ["TO"] Gap.blank b3.around
     (scansAs_kw .TO _ (by decide +kernel) (WordEnd.blank _))
-  obtain ⟨s5, h5, b5⟩ := parseIdent_piece s4 [' '] (qi user) k user Gap.blank b4 (scansAs_ident user k hex2 hk)
+  obtain ⟨s5, h5, b5⟩ := parseIdent_piece s4 [' '] (qi user) k user Gap.blank b4.around (scansAs_ident user k hex2 hk)
   refine ⟨s5, ?_, b5⟩
   simp only [runHandler, parseGrant]
   rw [P.run_bind _ _ s p s1 h1, P.run_bind _ _ s1 lx s2 h2]
@@ -708,9 +708,9 @@ theorem grantAdmin_print_parse (fuel : Nat) (s : PState) (user k : Str)
     simp only [grantAdminText, List.append_assoc, List.cons_append]
   rw [e] at hs
   obtain ⟨s1, h1, b1⟩ := parsePrivilege_print s .all _ (by decide) (WordEnd.blank _) hs
-  obtain ⟨lx, s2, h2, t2, _, b2⟩ := scanIW_piece s1 [' '] Token.TO.str _ .TO [] Gap.blank b1
+  obtain ⟨lx, s2, h2, t2, _, b2⟩ := scanIW_piece s1 [' '] Token.TO.str _ .TO [] Gap.blank b1.around
     (scansAs_kw .TO _ (by decide +kernel) (WordEnd.blank _))
-  obtain ⟨s3, h3, b3⟩ := parseIdent_piece s2 [' '] (qi user) k user Gap.blank b2 (scansAs_ident user k hex hk)
+  obtain ⟨s3, h3, b3⟩ := parseIdent_piece s2 [' '] (qi user) k user Gap.blank b2.around (scansAs_ident user k hex hk)
   refine ⟨s3, ?_, b3⟩
   simp only [runHandler, parseGrant]
   rw [P.run_bind _ _ s .all s1 h1, P.run_bind _ _ s1 lx s2 h2]
@@ -750,13 +750,13 @@ theorem revoke_print_parse (fuel : Nat) (s : PState) (p : Privilege) (on user k 
     simp only [revokeText, List.append_assoc, List.cons_append]
   rw [e] at hs
   obtain ⟨s1, h1, b1⟩ := parsePrivilege_print s p _ hp (WordEnd.blank _) hs
-  obtain ⟨lx, s2, h2, t2, _, b2⟩ := scanIW_piece s1 [' '] Token.ON.str _ .ON [] Gap.blank b1
+  obtain ⟨lx, s2, h2, t2, _, b2⟩ := scanIW_piece s1 [' '] Token.ON.str _ .ON [] Gap.blank b1.around
     (scansAs_kw .ON _ (by decide +kernel) (WordEnd.blank _))
-  obtain ⟨s3, h3, b3⟩ := parseIdent_piece s2 [' '] (qi on) _ on Gap.blank b2
+  obtain ⟨s3, h3, b3⟩ := parseIdent_piece s2 [' '] (qi on) _ on Gap.blank b2.around
     (scansAs_ident on _ hex1 (.of_wordEnd (WordEnd.blank _)))
-  obtain ⟨s4, h4, b4⟩ := expectTok_piece s3 [' '] Token.FROM.str _ .FROM [] ["FROM"] Gap.blank b3
+  obtain ⟨s4, h4, b4⟩ := expectTok_piece s3 [' '] Token.FROM.str _ .FROM [] ["FROM"] Gap.blank b3.around
     (scansAs_kw .FROM _ (by decide +kernel) (WordEnd.blank _))
-  obtain ⟨s5, h5, b5⟩ := parseIdent_piece s4 [' '] (qi user) k user Gap.blank b4 (scansAs_ident user k hex2 hk)
+  obtain ⟨s5, h5, b5⟩ := parseIdent_piece s4 [' '] (qi user) k user Gap.blank b4.around (scansAs_ident user k hex2 hk)
   refine ⟨s5, ?_, b5⟩
   simp only [runHandler, parseRevoke]
   rw [P.run_bind _ _ s p s1 h1, P.run_bind _ _ s1 lx s2 h2]
@@ -772,9 +772,9 @@ theorem revokeAdmin_print_parse (fuel : Nat) (s : PState) (user k : Str)
     simp only [revokeAdminText, List.append_assoc, List.cons_append]
   rw [e] at hs
   obtain ⟨s1, h1, b1⟩ := parsePrivilege_print s .all _ (by decide) (WordEnd.blank _) hs
-  obtain ⟨lx, s2, h2, t2, _, b2⟩ := scanIW_piece s1 [' '] Token.FROM.str _ .FROM [] Gap.blank b1
+  obtain ⟨lx, s2, h2, t2, _, b2⟩ := scanIW_piece s1 [' '] Token.FROM.str _ .FROM [] Gap.blank b1.around
     (scansAs_kw .FROM _ (by decide +kernel) (WordEnd.blank _))
-  obtain ⟨s3, h3, b3⟩ := parseIdent_piece s2 [' '] (qi user) k user Gap.blank b2 (scansAs_ident user k hex hk)
+  obtain ⟨s3, h3, b3⟩ := parseIdent_piece s2 [' '] (qi user) k user Gap.blank b2.around (scansAs_ident user k hex hk)
   refine ⟨s3, ?_, b3⟩
   simp only [runHandler, parseRevoke]
   rw [P.run_bind _ _ s .all s1 h1, P.run_bind _ _ s1 lx s2 h2]
@@ -824,7 +824,7 @@ theorem dispatch_print (fuel : Nat) (h : Handler) (toks : List Token) :
     | succ it =>
     cases rest with
     | nil =>
-      obtain ⟨lx, s1, h1, t1, _, b1⟩ := scanIW_piece s pre t.str k t [] hpre hs
+      obtain ⟨lx, s1, h1, t1, _, b1⟩ := scanIW_piece s pre t.str k t [] hpre hs.around
         (scansAs_kw t k (hkw t (by simp)) hk)
       refine ⟨s1, ?_, b1⟩
       simp only [dispatchPath] at hp
@@ -840,7 +840,7 @@ theorem dispatch_print (fuel : Nat) (h : Handler) (toks : List Token) :
       have e : pre ++ (kwText (t :: t2 :: rest2) ++ k) = pre ++ (t.str ++ ([' '] ++ (kwText (t2 :: rest2) ++ k))) := by
         simp only [kwText, List.append_assoc, List.cons_append, List.nil_append]
       rw [e] at hs
-      obtain ⟨lx, s1, h1, t1, _, b1⟩ := scanIW_piece s pre t.str _ t [] hpre hs
+      obtain ⟨lx, s1, h1, t1, _, b1⟩ := scanIW_piece s pre t.str _ t [] hpre hs.around
         (scansAs_kw t _ (hkw t (by simp)) (WordEnd.blank _))
       simp only [dispatchPath] at hp
       cases hsub : lookupTok t (dispatch.getD idx default).subs with
